@@ -142,7 +142,9 @@ def csr_counter(ctx):
     r = ctx.rule("FMM-NEAR-CSR", "sparse near-field matrix: per target element the entry counter starts at 4*np*np*(neighbour offset of the element), every row pointer records it before the row's entries, data and indices are written at the counter, which then advances by one", 1)
     fn = ctx.repo.mod(HE).fn("get_local_interaction_matrix_impl")
     defs = roles.Defs(fn)
-    KEEP = tuple({n.id for n in ast.walk(fn) if isinstance(n, ast.Name)})
+    # the comparison is phrased on the function's own names, except locals that merely name an arithmetic fragment
+    arith = {nm for nm, lst in defs.all.items() if len(lst) == 1 and lst[0][2][0] == "expr" and isinstance(lst[0][2][1], (ast.BinOp, ast.Constant)) and nm not in defs.multi}
+    KEEP = tuple({n.id for n in ast.walk(fn) if isinstance(n, ast.Name)} - arith)
     S = roles.stores(fn.body, defs, keep=KEEP, lv=False)
     deep = [s for s in S if len(s.loops) == 5]
     ok, msg = False, "innermost loop nest not found"
